@@ -103,6 +103,41 @@ def check(ck):
                 for k, v in zip(n.keys, n.values):
                     if A.const_str(k) == "type":
                         tname = A.const_str(v)
+            if isinstance(n, ast.Assign) and len(n.targets) == 1 and isinstance(n.targets[0], ast.Subscript) and A.const_str(n.targets[0].slice) == "type":
+                tname = A.const_str(n.value)
+            if isinstance(n, ast.Call) and A.call_attr(n) in ("dict", "update") and A.kwarg(n, "type") is not None:
+                tname = A.const_str(A.kwarg(n, "type"))
+        # the dump describes the backend AS IT IS: when it starts from the configuration the backend
+        # was given (self.config), every option a constructor argument can override has to be
+        # overwritten unconditionally, else the as-given value survives wherever the overlay is skipped
+        tdf = td
+        base_from_given = []
+        for st in tdf.stmts(ast.Assign):
+            if len(st.targets) == 1 and isinstance(st.targets[0], ast.Name) and any(
+                    isinstance(x, ast.Attribute) and x.attr == "config" and A.norm(x.value) == "self" for x in ast.walk(st.value)):
+                base_from_given.append(st)
+        for r in tdf.returns():
+            if r.value is not None and any(isinstance(x, ast.Attribute) and x.attr == "config" and A.norm(x.value) == "self" for x in ast.walk(r.value)):
+                base_from_given.append(r)
+        cond_keys = []
+        if base_from_given:
+            overridable = {ARG_TO_KEY.get(p_, p_) for p_ in (init.params if init is not None else []) if p_ not in ("self", "config")}
+            for st in tdf.stmts(ast.Assign):
+                if len(st.targets) == 1 and isinstance(st.targets[0], ast.Subscript):
+                    k_ = A.const_str(st.targets[0].slice)
+                    if k_ in overridable and tdf.enclosing(st, ast.If) is not None:
+                        cond_keys.append(k_)
+            missing = sorted(overridable - {A.const_str(st.targets[0].slice) for st in tdf.stmts(ast.Assign)
+                                            if len(st.targets) == 1 and isinstance(st.targets[0], ast.Subscript)})
+            cond_keys += missing
+        okb = not cond_keys
+        ck.ob(R3, cls.qual + "::dump-from-effective-state", okb,
+              "to_dict is built from the backend's effective state" if not base_from_given else
+              "to_dict starts from the as-given configuration and unconditionally overwrites every overridable option" if okb else
+              "to_dict starts from the configuration the backend was given (`%s`) and writes %s only conditionally (or not at all): where an explicit "
+              "constructor argument overrode the configuration and the overlay is skipped (e.g. memory_cache_mb=0 over a configured 8), the dump "
+              "carries the overridden value and the rebuilt environment differs" % (A.short(base_from_given[0], 50), sorted(set(cond_keys))),
+              tdf.where(base_from_given[0]) if base_from_given else "")
         ok = rname is not None and rname == sname == tname
         ck.ob(R3, cls.qual + "::type-name", ok, "registered, constructed and dumped as %r" % rname if ok else
               "type names disagree: register(%r), base constructor %r, to_dict %r: a dump cannot be turned back into this backend" % (rname, sname, tname), A.loc(cls, cls.node))
